@@ -210,6 +210,7 @@ class LineInterrupt:
     def __init__(self, at):
         self.at = at
         self.n = 0
+        self.first = {}     # code object -> index of its first traced line
 
     def _g(self, frame, event, arg):
         if frame.f_code.co_filename.startswith(self.PREFIX):
@@ -219,6 +220,8 @@ class LineInterrupt:
     def _l(self, frame, event, arg):
         if event == 'line':
             self.n += 1
+            if self.at < 0:
+                self.first.setdefault(frame.f_code, self.n)
             if self.n == self.at:
                 raise _Interrupt()
         return self._l
@@ -278,6 +281,35 @@ def run_trajectories(plan, sim, code, rc, faces, violate, stats, states):
         li = None
         if (plan.get('ki_line') or {}).get(str(ei)) is not None:
             li = LineInterrupt(plan['ki_line'][str(ei)])
+        elif ei == 0 and plan.get('ki_first_fraction') is not None:
+            # anywhere in the first decode, which also builds the lazily
+            # cached tables of the (so far untouched) code object: the
+            # number of traced lines is counted on a separate fresh pair of
+            # objects first, the interrupt lands at that fraction of it
+            dry_code = make_code(plan['code'], plan['size'])
+            dry = make_decoder(plan['decoder'], dry_code, plan.get('knobs'))
+            drive_tiebreaks(dry, SchedRng(stream(plan['seed'], 'dry'), sim))
+            cnt = LineInterrupt(-1)
+            sys.settrace(cnt._g)
+            try:
+                try:
+                    dry.decode(np.array(syndrome, copy=True))
+                except Exception:
+                    pass
+            finally:
+                sys.settrace(None)
+            at = 1 + int(plan['ki_first_fraction'] * max(1, cnt.n - 1))
+            if plan.get('ki_first_activation') is not None and cnt.first:
+                # lazily built state is built during the *first activation*
+                # of some function: aim a little after one of those
+                firsts = sorted(cnt.first.values())
+                f_sel, off = plan['ki_first_activation']
+                rank = (f_sel if isinstance(f_sel, int)
+                        else int(f_sel * len(firsts))) % len(firsts)
+                at = min(cnt.n, firsts[rank] + off)
+                sim.probe('interrupt_aimed_at_first_activation')
+            li = LineInterrupt(at)
+            sim.probe('first_decode_interrupted_at_fraction')
         try:
             if li is not None:
                 sys.settrace(li._g)
@@ -564,6 +596,14 @@ def trajectory_plans(tier, seed):
                         'seed': H(seed, 'hist', len(out)), 'decoder': kind,
                         'code': cname, 'size': size, 'errors': errs,
                         'reuse': True, 'ki': ki, 'ki_line': ki_line,
+                        'ki_first_fraction': (rng.random()
+                                              if rng.random() < 0.6
+                                              and '0' not in ki
+                                              and '0' not in ki_line
+                                              else None),
+                        'ki_first_activation': (
+                            [rng.random(), rng.randint(0, 60)]
+                            if rng.random() < 0.7 else None),
                         'new_decoder_each_time': rng.random() < 0.3,
                         'knobs': ({'max_rounds': 2} if kind == 'rotated'
                                   else None)})
@@ -580,6 +620,32 @@ def trajectory_plans(tier, seed):
                             if rng.random() < 0.4 else None),
                         'knobs': ({'max_rounds': 2} if kind == 'rotated'
                                   else None)})
+    # fault enumeration over *first activations*: for every function that
+    # is entered for the first time during the first decode on untouched
+    # objects (that is where lazily built state is built), Ctrl-C a few
+    # lines to a few thousand lines later; then three more decodes on the
+    # same decoder and code object
+    combos = [('rotated', 'RotatedPlanar3DCode', [3, 3, 3]),
+              ('cubic', 'Toric3DCode', [2, 2, 2])]
+    if tier == 'thorough':
+        combos += [('rotated', 'RotatedPlanar3DCode', [2, 2, 2]),
+                   ('cubic', 'Planar3DCode', [3, 3, 3]),
+                   ('cubic', 'Toric3DCode', [3, 3, 3])]
+    for kind, cname, size in combos:
+        n = make_code(cname, size).n
+        for rank in range(24):
+            for off in (1, 7, 40, 150, 330, 480, 900, 2500):
+                errs = [random_error(rng, n, rng.choice([0.1, 0.2]), 'Z')
+                        for _ in range(4)]
+                out.append({
+                    'property': PROP, 'kind': 'trajectory',
+                    'seed': H(seed, 'fa', len(out)), 'decoder': kind,
+                    'code': cname, 'size': size, 'errors': errs,
+                    'reuse': True, 'ki': {}, 'ki_line': {},
+                    'ki_first_fraction': 0.5,
+                    'ki_first_activation': [rank, off],
+                    'knobs': ({'max_rounds': 2} if kind == 'rotated'
+                              else None)})
     return out
 
 
